@@ -64,6 +64,10 @@ pub struct SeqStats {
     pub samples: Vec<serde_json::Value>,
 }
 
+fn notes_of(lines: &[String]) -> Vec<String> {
+    lines.iter().filter_map(|m| m.strip_prefix("changed $connections ").map(|x| x.trim().to_string())).collect()
+}
+
 fn run_sequence(evs: &[E], v: &Verdicts, st: &Mutex<SeqStats>) {
     let (node, _adm) = setup();
     let dbs = node.dbs.clone();
@@ -77,14 +81,24 @@ fn run_sequence(evs: &[E], v: &Verdicts, st: &Mutex<SeqStats>) {
     *model.get_mut("d0").unwrap() += 1;
     let mut expected_notes: Vec<String> = vec![];
     let mut sessions: Vec<Option<(Session, Option<String>)>> = vec![None, None, None];
+    // sessions of the sequence that watch the counter of the database they selected: (database, values they must be
+    // sent from then on, values they were sent). Judged while the session keeps that database selected (selecting it
+    // again changes nothing for it); what becomes of a subscription when its session moves to another database is not
+    // specified, so the subscription is judged up to that command and dropped from the model
+    let mut subs: Vec<Option<(String, Vec<String>, Vec<String>)>> = vec![None, None, None];
+    let mut watched_twice = [false; 3];
+    let mut sub_problem: Option<serde_json::Value> = None;
+    let mut sub_checked = 0u64;
     let mut trace = vec![];
     let mut shape = vec![];
     for e in evs {
         let before_d0 = model["d0"];
+        let before_all = model.clone();
         let mut reply = String::new();
         let res = std::panic::catch_unwind(std::panic::AssertUnwindSafe(|| match e {
             E::Connect(i) => {
                 if sessions[*i].is_none() {
+                    watched_twice[*i] = false;
                     sessions[*i] = Some((Session::new(), None));
                     shape.push("connect");
                 }
@@ -97,7 +111,20 @@ fn run_sequence(evs: &[E], v: &Verdicts, st: &Mutex<SeqStats>) {
                         2 => format!("use-db {} u utok", DBS[*d]),
                         _ => "use-db nodb tok".to_string(),
                     };
+                    let moving = (*kind == 0 || *kind == 2) && sel.as_deref() != Some(DBS[*d]);
+                    if moving {
+                        if let Some((db, want, mut got)) = subs[*i].take() {
+                            got.extend(notes_of(&s.drain()));
+                            sub_checked += got.len() as u64;
+                            if got != want && sub_problem.is_none() {
+                                sub_problem = Some(json!({"session": i, "database": db, "expected": want, "got": got, "judged_at": "before-selecting-another-database"}));
+                            }
+                        }
+                    }
                     let r = s.call(&dbs, &line);
+                    if let Some(su) = subs[*i].as_mut() {
+                        su.2.extend(notes_of(&r.pushed));
+                    }
                     reply = r.resp.clone();
                     if *kind == 0 || *kind == 2 {
                         let name = DBS[*d].to_string();
@@ -115,13 +142,44 @@ fn run_sequence(evs: &[E], v: &Verdicts, st: &Mutex<SeqStats>) {
                 }
             }
             E::Other(i, line) => {
-                if let Some((s, _)) = sessions[*i].as_mut() {
-                    reply = s.call(&dbs, line).resp;
+                if let Some((s, sel)) = sessions[*i].as_mut() {
+                    let r = s.call(&dbs, line);
+                    if let Some(su) = subs[*i].as_mut() {
+                        su.2.extend(notes_of(&r.pushed));
+                    }
+                    if *line == "watch $connections" && !r.is_error() && !watched_twice[*i] {
+                        if let Some(d) = sel.as_ref() {
+                            if subs[*i].is_none() {
+                                subs[*i] = Some((d.clone(), vec![], vec![]));
+                                shape.push("watch-counter");
+                            } else {
+                                // a second watch of the same key: how many copies arrive is not specified
+                                subs[*i] = None;
+                                watched_twice[*i] = true;
+                            }
+                        }
+                    }
+                    if *line == "unwatch-all" {
+                        if let Some((db, want, got)) = subs[*i].take() {
+                            sub_checked += got.len() as u64;
+                            if got != want && sub_problem.is_none() {
+                                sub_problem = Some(json!({"session": i, "database": db, "expected": want, "got": got, "judged_at": "unwatch-all"}));
+                            }
+                        }
+                    }
+                    reply = r.resp;
                     shape.push("other");
                 }
             }
             E::Disconnect(i) => {
-                if let Some((s, sel)) = sessions[*i].take() {
+                if let Some((mut s, sel)) = sessions[*i].take() {
+                    if let Some((db, want, mut got)) = subs[*i].take() {
+                        got.extend(notes_of(&s.drain()));
+                        sub_checked += got.len() as u64;
+                        if got != want && sub_problem.is_none() {
+                            sub_problem = Some(json!({"session": i, "database": db, "expected": want, "got": got, "judged_at": "disconnect"}));
+                        }
+                    }
                     s.disconnect(&dbs);
                     if let Some(d) = sel {
                         *model.get_mut(&d).unwrap() -= 1;
@@ -138,6 +196,11 @@ fn run_sequence(evs: &[E], v: &Verdicts, st: &Mutex<SeqStats>) {
         if model["d0"] != before_d0 {
             expected_notes.push(model["d0"].to_string());
         }
+        for su in subs.iter_mut().flatten() {
+            if model[&su.0] != before_all[&su.0] {
+                su.1.push(model[&su.0].to_string());
+            }
+        }
         let got = counts(&dbs);
         for d in DBS.iter() {
             let (cnt, key) = &got[*d];
@@ -150,6 +213,10 @@ fn run_sequence(evs: &[E], v: &Verdicts, st: &Mutex<SeqStats>) {
             }
         }
     }
+    if let Some(p) = sub_problem {
+        v.report(json!({"check": "connections", "mode": "sequential", "problem": "watcher-did-not-see-each-change", "watcher": "session-of-the-sequence"}), json!({"events": format!("{:?}", evs), "trace": trace, "subscription": p}));
+    }
+    st.lock().unwrap().notifications_checked += sub_checked;
     // what the watcher saw
     let notes: Vec<String> = w.drain().into_iter().filter_map(|m| m.strip_prefix("changed $connections ").map(|x| x.trim().to_string())).collect();
     let mut s = st.lock().unwrap();
@@ -176,6 +243,7 @@ fn random_events(r: &mut Rng) -> Vec<E> {
             0..=2 => E::Connect(i),
             3..=6 => E::Use(i, r.below(2), *r.pick(&[0, 0, 0, 1, 2, 2, 3])),
             7 => E::Other(i, *r.pick(&["get a", "set a 1", "keys", "unwatch-all", "watch a", "get $connections"])),
+            8 => E::Other(i, "watch $connections"),
             _ => E::Disconnect(i),
         });
     }
@@ -737,6 +805,18 @@ pub fn run(tier: &str) -> i32 {
                     }
                 }
                 evs.push(E::Disconnect(0));
+                cases.push(evs);
+            }
+        }
+    }
+    // systematic: a session that watches the counter of its database, selects (the same database again with the token
+    // or as a user, a wrong token, the other database) and stays while another session comes and goes
+    for first in [0usize, 2] {
+        for again in [vec![], vec![E::Use(0, 0, 0)], vec![E::Use(0, 0, 2)], vec![E::Use(0, 0, 1)], vec![E::Use(0, 0, 0), E::Use(0, 0, 2)], vec![E::Use(0, 1, 0)], vec![E::Use(0, 1, 0), E::Use(0, 0, 0)], vec![E::Other(0, "get a")]] {
+            for other_kind in [0usize, 2] {
+                let mut evs = vec![E::Connect(0), E::Use(0, 0, first), E::Other(0, "watch $connections")];
+                evs.extend(again.clone());
+                evs.extend([E::Connect(1), E::Use(1, 0, other_kind), E::Use(1, 1, 0), E::Connect(2), E::Use(2, 0, 0), E::Disconnect(2), E::Disconnect(1), E::Disconnect(0)]);
                 cases.push(evs);
             }
         }
